@@ -166,6 +166,11 @@ class Gen:
             ops = [{"op": "sleep", "d": rng.choice(DELAYS)},
                    {"op": "spawn", "into": label, "actor": self.late_child()}]
             actors.append({"name": "outsider", "ops": ops})
+        if rng.random() < 0.4:
+            # an activity outside the scope waits for its end (`await scope`)
+            actors.append({"name": "watcher", "ops": [
+                {"op": "postpone", "k": rng.randint(1, 3)},
+                {"op": "await_scope", "scope": label}, {"op": "now", "tag": "scope-ended"}]})
         actors.extend(self.setters)
         return {"resources": dict(self.flags), "actors": actors}, label
 
